@@ -15,7 +15,7 @@ import (
 )
 
 var Spec = engine.Spec{
-	ID: "C09", Run: Run, MapOrders: true, MapOrdersQuick: []int{vmap.Alternating}, QuickBud: 5 * time.Minute, ThorBud: 25 * time.Minute,
+	ID: "C09", Run: Run, MapOrders: true, MapOrdersQuick: []int{vmap.Alternating}, QuickBud: 5 * time.Minute, ThorBud: 45 * time.Minute,
 	Technique: "explicit enumeration of all ordered pairs (and triples) of small node lists, ill-formed ones included; real Union/Add against a set-of-triples model; attribute cube by reflection over every Node field",
 	Rule:      "case = ordered pair/triple of list specs (node subset, ordered edge-object list, root subset) or one attribute-cube point (field pair x 16 emptiness combinations x background); distinct state = pair of canonical list keys",
 	Assume:    []string{"attribute rule excludes id (the key) and type (enum whose zero value is a legitimate value)"},
